@@ -3,6 +3,7 @@
 # 1. confirms in a scratch worktree: suite passes with the patch, TestDemo passes without and fails with it
 # 2. applies the patch to /repo, runs the quick checks, reverts, prints a summary line per check
 set -u
+DEMO_FLAGS="${DEMO_FLAGS:-}"
 SRC="$1"; ID="$2"; shift 2; CHECKS="$*"
 export GOFLAGS=-mod=mod GOPROXY=off GOSUMDB=off GOTOOLCHAIN=local
 WT=$(mktemp -d /tmp/confirm-XXXXXX); rmdir "$WT"
@@ -11,12 +12,12 @@ cleanup() { git -C /repo worktree remove --force "$WT" 2>/dev/null; }
 trap cleanup EXIT
 cd "$WT"
 cp "$SRC/demo_test.go" ./zz_demo_test.go
-DEMO_CLEAN=$(go test -vet=off -count=1 -run 'TestDemo' . >/dev/null 2>&1 && echo pass || echo FAIL)
+DEMO_CLEAN=$(go test $DEMO_FLAGS -vet=off -count=1 -run TestDemo . >/dev/null 2>&1 && echo pass || echo FAIL)
 rm zz_demo_test.go
 git apply "$SRC/patch.diff" || { echo "patch does not apply"; exit 2; }
 SUITE=$(go test -vet=off -count=1 . >/dev/null 2>&1 && echo pass || echo FAIL)
 cp "$SRC/demo_test.go" ./zz_demo_test.go
-DEMO_MUT=$(go test -vet=off -count=1 -run 'TestDemo' . >/dev/null 2>&1 && echo pass || echo FAIL)
+DEMO_MUT=$(go test $DEMO_FLAGS -vet=off -count=1 -run TestDemo . >/dev/null 2>&1 && echo pass || echo FAIL)
 rm zz_demo_test.go
 echo "confirm: demo-on-clean=$DEMO_CLEAN suite-with-patch=$SUITE demo-with-patch=$DEMO_MUT"
 cd /verif
